@@ -1,10 +1,10 @@
 """C20 — client configuration resolution (src/ndn/client_conf.py, platform/linux.py, platform/general.py).
 
 The real functions run against a *virtual* environment: the `os` name seen by `ndn.client_conf` and
-`ndn.platform.linux` is replaced by a proxy whose `path.exists` / `path.expanduser` / `environ` answer from the
-case, and `open` (module global of client_conf) serves the case's configuration files.  Nothing of the user's real
+`ndn.platform.linux` (osx / windows when the case selects that branch) is replaced by a proxy whose `path.exists` /
+`path.expanduser` / `path.expandvars` / `environ` answer from the case, and `open` (module global of client_conf) serves the case's configuration files.  Nothing of the user's real
 configuration, home directory or environment is read or written."""
-import io, os, posixpath, re, importlib
+import io, os, posixpath, ntpath, re, importlib
 
 PROP = 'C20'
 TITLE = 'Client configuration resolves with environment over file over platform default'
@@ -19,7 +19,9 @@ THEOREMS = [
 PARTIAL = {}
 TRUSTED = [
     'C20: the file system is a predicate on the literal strings passed to os.path.exists, fixed during one call; '
-    'os.path.expandvars is the identity (candidate paths contain no $)',
+    'os.path.expandvars is the identity on candidate paths (home directories contain no $); os.path.expanduser / expandvars '
+    'are reproduced by the harness over the environment and password database of the case (CPython posixpath semantics: HOME '
+    'when present, also when empty, else pw_dir); the model takes the resulting home directory as an input',
     'C20: configparser is modelled (parseConf) as ConfigParser(interpolation=None).read_string("[DEFAULT]\\n" + text) on '
     'ASCII text: full-line #/; comments, blank lines, section headers, = and : delimiters, continuation lines, '
     'lower-cased option names, strict duplicate detection, ParsingError for lines that are neither; the split of the '
@@ -38,7 +40,10 @@ RULE = ('three streams: (conf) product of presence/absence and values of NDN_CLI
         'sections, repeated sections, [] and unclosed headers) '
         'x store values scheme / scheme:loc / scheme:loc:extra with loc absolute or relative, existing as given, existing '
         'relative to the configuration file, or missing, with and without an existing platform default location and with '
-        'both NFD socket paths present/absent; (face) URIs scheme://[user@]host[:port][/path] over all supported schemes in '
+        'both NFD socket paths present/absent, x HOME set / absent (home directory from the password database) / empty, '
+        "x store and transport values containing '$HOME', '${HOME}', '~' (literal text), x one case in eight on the macOS branch "
+        'of the platform helpers (general.py dispatch with sys.platform = darwin; oracle only, judged against the documented '
+        'macOS table); (face) URIs scheme://[user@]host[:port][/path] over all supported schemes in '
         'mixed case, unsupported schemes, names / IPv4 / bracketed IPv6 (valid, invalid, unbalanced), ports absent, empty, '
         '0, 1..65535, 65536+, zero-padded, non-numeric, unix URIs with 0-3 slashes, query, fragment, plus random ASCII '
         'strings; (kc) pib/tpm strings with supported, off-platform and unknown schemes, with and without colon; (parse) '
@@ -67,12 +72,29 @@ class _Proxy:
         return getattr(self.__dict__['_real'], n)
 
 
-class Virt:
-    """context manager: ndn.client_conf and ndn.platform.linux see a virtual os / open"""
+_VAR_POSIX = re.compile(r'\$(\w+|\{[^}]*\})', re.ASCII)
+_VAR_NT = re.compile(r'%([^%]*)%|\$(\w+|\{[^}]*\})', re.ASCII)
 
-    def __init__(self, home, exists, files, env, expanduser=None):
+
+class Virt:
+    """context manager: ndn.client_conf and the platform module in force see a virtual os / open.
+
+    home_env: 'set' (HOME = home), 'unset' (HOME absent; the password database names `home`), 'empty' (HOME = '').
+    platform: 'linux' | 'darwin' | 'win32' - for the last two the `sys` seen by ndn.platform.general reports that
+    platform and the Platform singleton is rebuilt for the time of the block (the modules ndn.platform.osx / windows are
+    imported under the real sys.platform, so their native-library imports are skipped); win32 sees ntpath.
+    extra_env: further environment variables (win32 profile variables, variables a '$' in a value could name)."""
+
+    def __init__(self, home, exists, files, env, expanduser=None, home_env='set', platform='linux', extra_env=None):
         self.home, self.exists, self.files = home, set(exists) | set(files), dict(files)
-        self.environ = {'HOME': home}
+        self.platform = platform
+        self.environ = {}
+        if home_env == 'set':
+            self.environ['HOME'] = home
+        elif home_env == 'empty':
+            self.environ['HOME'] = ''
+        for k, v in (extra_env or {}).items():
+            self.environ[k] = v
         for k, v in env.items():
             if v is not None:
                 self.environ['NDN_CLIENT_' + k.upper()] = v
@@ -85,11 +107,38 @@ class Virt:
         return p in self.exists
 
     def _expand(self, p):
+        """os.path.expanduser of CPython over the virtual environment / password database"""
         if self._expanduser:
             return self._expanduser(p)
+        p = os.fspath(p)
+        if self.platform == 'win32':
+            if p == '~' or p[:2] in ('~/', '~\\'):
+                if 'USERPROFILE' in self.environ:
+                    return self.environ['USERPROFILE'] + p[1:]
+                if 'HOMEPATH' in self.environ:
+                    return self.environ.get('HOMEDRIVE', '') + self.environ['HOMEPATH'] + p[1:]
+            return p
         if p == '~' or p.startswith('~/'):
-            return self.home + p[1:]
+            userhome = self.environ['HOME'] if 'HOME' in self.environ else self.home     # else: pwd.getpwuid(uid).pw_dir
+            return (userhome.rstrip('/') + p[1:]) or '/'
         return p
+
+    def _expandvars(self, p):
+        """os.path.expandvars of CPython ($name, ${name}; on win32 also %name%) over the virtual environment"""
+        p = os.fspath(p)
+
+        def rep(m):
+            n = m.group(1) if m.group(1) is not None else m.group(m.lastindex)
+            if m.group(0).startswith('$') and n.startswith('{'):
+                n = n[1:-1]
+            if m.group(0) == '%%':
+                return '%'
+            return self.environ.get(n, m.group(0))
+        if self.platform == 'win32':
+            if "'" in p:                       # ntpath leaves single-quoted stretches alone: not generated
+                return p
+            return _VAR_NT.sub(rep, p)
+        return _VAR_POSIX.sub(rep, p)
 
     def _open(self, path, mode='r', *a, **k):
         path = os.fspath(path)
@@ -101,24 +150,31 @@ class Virt:
         raise FileNotFoundError(2, 'No such file or directory (virtual)', path)
 
     def __enter__(self):
+        import sys as _sys
         cc = importlib.import_module('ndn.client_conf')
-        lx = importlib.import_module('ndn.platform.linux')
-        self.cc, self.lx = cc, lx
-        pathp = _Proxy(posixpath, {
+        gen = importlib.import_module('ndn.platform.general')
+        pm = importlib.import_module({'linux': 'ndn.platform.linux', 'darwin': 'ndn.platform.osx',
+                                      'win32': 'ndn.platform.windows'}[self.platform])
+        self.cc, self.lx, self.gen = cc, pm, gen
+        base = ntpath if self.platform == 'win32' else posixpath
+        pathp = _Proxy(base, {
             'exists': self._exists, 'lexists': self._exists,
             'isfile': lambda p: os.fspath(p) in self.files,
             'isdir': lambda p: os.fspath(p) in self.exists and os.fspath(p) not in self.files,
-            'expanduser': self._expand,
+            'expanduser': self._expand, 'expandvars': self._expandvars,
         })
         osp = _Proxy(os, {'path': pathp, 'environ': self.environ,
                           'getenv': lambda k, d=None: self.environ.get(k, d)})
-        self._old = (cc.os, lx.os)
-        cc.os, lx.os = osp, osp
+        self._old = (cc.os, pm.os, gen.sys, gen.Platform._instance)
+        cc.os, pm.os = osp, osp
+        if self.platform != 'linux' or not _sys.platform.startswith('linux'):
+            gen.sys = _Proxy(_sys, {'platform': self.platform})
+            gen.Platform._instance = None
         cc.open = self._open
         return self
 
     def __exit__(self, *a):
-        self.cc.os, self.lx.os = self._old
+        self.cc.os, self.lx.os, self.gen.sys, self.gen.Platform._instance = self._old
         try:
             del self.cc.open
         except AttributeError:
@@ -130,8 +186,19 @@ def _platform():
     return Platform()
 
 
-def live_platform(home, exists=()):
-    with Virt(home, exists, {}, {}):
+def _eff_home(case):
+    """the directory '~' denotes in the case: $HOME when set (also when set to the empty string), else the home directory
+    of the password database entry (case['home'] plays both roles)"""
+    return '' if case.get('home_env') == 'empty' else case['home']
+
+
+def _virt(case, files):
+    return Virt(case['home'], case['exists'], files, case['env'], home_env=case.get('home_env', 'set'),
+                platform=case.get('platform', 'linux'), extra_env=case.get('extra_env'))
+
+
+def live_platform(home, exists=(), home_env='set', platform='linux', extra_env=None):
+    with Virt(home, exists, {}, {}, home_env=home_env, platform=platform, extra_env=extra_env):
         p = _platform()
         return {'conf_paths': list(p.client_conf_paths()), 'default_transport': p.default_transport(),
                 'pib_scheme': p.default_pib_scheme(), 'tpm_scheme': p.default_tpm_scheme(),
@@ -215,13 +282,16 @@ end Ndn.Gen.C20
 
 # ------------------------------------------------------------------------------ cases
 HOMES = ['/home/u', '/root', '/h']
-ABS_LOCS = ['/var/lib/ndn/pib', '/data/keys', '/k', '/data/k=1', '/srv/a#b;c', '/data/k%20x', '/srv/%(home)s/pib', '/p%%q']
-REL_LOCS = ['keys', 'sub/pib', '../k', 'ndnsec-key-file', 'k=v/pib', './keys', 'k%/pib']
+ABS_LOCS = ['/var/lib/ndn/pib', '/data/keys', '/k', '/data/k=1', '/srv/a#b;c', '/data/k%20x', '/srv/%(home)s/pib', '/p%%q',
+            '/data/$HOME/pib', '/srv/${HOME}k', '/data/keys/']
+# (a location is literal text: '$HOME', '${HOME}' and '~' in it are not expanded - "used as given")
+REL_LOCS = ['keys', 'sub/pib', '../k', 'ndnsec-key-file', 'k=v/pib', './keys', 'k%/pib', '$HOME/keys', '~/keys', '~', 'sub/']
 PIB_SCHEMES = ['pib-sqlite3', 'pib-sqlite3', 'pib-memory', 'x', '']
 TPM_SCHEMES = ['tpm-file', 'tpm-file', 'tpm-memory', 'y', '']
 TRANSPORTS = ['unix:///run/nfd/nfd.sock', 'unix:///tmp/n.sock', 'tcp://localhost:6363', 'udp4://10.0.0.1',
               'tcp://[::1]:7000', 'bogus://x', '', 'tcp4://router.example.net:9000', 'unix:///tmp/a=b.sock',
-              'udp6://[::1]:6363', 'unix:///run/x.sock?a=b:c#d=e', 'tcp://h:1=2', 'unix:///tmp/a%20b.sock']
+              'udp6://[::1]:6363', 'unix:///run/x.sock?a=b:c#d=e', 'tcp://h:1=2', 'unix:///tmp/a%20b.sock',
+              'unix://$HOME/n.sock', 'unix://~/n.sock']
 
 
 def _store_value(rng, key, plat):
@@ -331,7 +401,14 @@ def render(lines, eol='\n', final=True):
 
 def _conf_case(rng):
     home = rng.choice(HOMES)
-    plat = live_platform(home)
+    # HOME present / absent (the home directory then comes from the password database) / set to the empty string;
+    # one case in eight on the macOS branch of the platform helpers
+    home_env = rng.choice(['set'] * 6 + ['unset'] * 3 + ['empty'])
+    platform = 'darwin' if rng.random() < 0.125 else 'linux'
+    try:
+        plat = live_platform(home, home_env=home_env, platform=platform)
+    except Exception:     # noqa  (helpers that cannot cope with this environment: generate from the documented table)
+        plat = _spec_platform('' if home_env == 'empty' else home, set(), platform)
     env = {k: (_value(rng, k, plat) if rng.random() < 0.35 else None) for k in ENVKEYS}
     files = []
     for p in plat['conf_paths']:
@@ -358,10 +435,14 @@ def _conf_case(rng):
     for p in plat['pib_paths'] + plat['tpm_paths']:
         if rng.random() < 0.6:
             exists.append(p)
-    for s in ['/run/nfd/nfd.sock', '/run/nfd.sock']:
+    for s in ['/run/nfd/nfd.sock', '/run/nfd.sock', '/var/run/nfd/nfd.sock', '/var/run/nfd.sock']:
         if rng.random() < 0.5:
             exists.append(s)
     case = {'op': 'conf', 'home': home, 'env': env, 'files': files, 'exists': sorted(set(exists))}
+    if home_env != 'set':
+        case['home_env'] = home_env
+    if platform != 'linux':
+        case['platform'] = platform
     r = rng.random()
     if r < 0.25:
         case['eol'] = rng.choice(['crlf', 'crlf', 'lf-nofinal', 'crlf-nofinal'])
@@ -407,6 +488,38 @@ def _targeted_conf():
                 yield {'op': 'conf', 'home': home, 'env': none, 'eol': eol, 'exists': ['/data/k=1', '/etc/ndn/k=v/pib'],
                        'files': [[paths[3], [['kv', 'transport', v, style], ['kv', 'pib', 'pib-sqlite3:/data/k=1', style],
                                              ['kv', 'tpm', 'tpm-file:k=v/pib', style]]]]}
+
+
+def _targeted_home():
+    """the home directory as the helper os.path.expanduser finds it: HOME set, absent (password database), empty; and the
+    macOS branch of the platform helpers: a user file / only a system file / no file, store defaults existing or not,
+    values with '$HOME' and '~' kept literally"""
+    none = {k: None for k in ENVKEYS}
+    for platform in ('linux', 'darwin'):
+        for home_env in ('set', 'unset', 'empty'):
+            home = '/home/u'
+            eff = '' if home_env == 'empty' else home
+            base = {'op': 'conf', 'home': home, 'env': none}
+            if home_env != 'set':
+                base['home_env'] = home_env
+            if platform != 'linux':
+                base['platform'] = platform
+            user, etc = eff + '/.ndn/client.conf', '/etc/ndn/client.conf'
+            dfl = [eff + '/.ndn', eff + '/.ndn/ndnsec-key-file']
+            fl = lambda tag: [['kv', 'transport', 'tcp://%s:1' % tag, 0], ['kv', 'pib', 'pib-sqlite3:/p/%s' % tag, 1],     # noqa
+                              ['kv', 'tpm', 'tpm-file:/t/%s' % tag, 2]]
+            for ex in ([], dfl, dfl + ['/p/u', '/t/u', '/p/e', '/t/e'], ['$HOME/.ndn', '~/.ndn', '/.ndn', '/root/.ndn', '.ndn']):
+                yield dict(base, files=[], exists=ex)
+                yield dict(base, files=[[user, fl('u')]], exists=ex)
+                yield dict(base, files=[[etc, fl('e')]], exists=ex)
+                yield dict(base, files=[[user, fl('u')], [etc, fl('e')]], exists=ex)
+                yield dict(base, files=[['$HOME/.ndn/client.conf', fl('d')], ['~/.ndn/client.conf', fl('t')], [etc, fl('e')]], exists=ex)
+            for loc in ('$HOME/keys', '${HOME}/keys', '~/keys', '/data/$HOME/k', '~'):
+                for extra in ([], [loc], [posixpath.join(posixpath.dirname(user), loc)], [posixpath.expanduser(loc), eff + '/keys',
+                                                                                         '/data/' + eff + '/k']):
+                    yield dict(base, files=[[user, [['kv', 'pib', 'pib-sqlite3:' + loc, 0], ['kv', 'tpm', 'tpm-file:' + loc, 1],
+                                                    ['kv', 'transport', 'unix://' + loc, 2]]]], exists=dfl + extra)
+                    yield dict(base, files=[], exists=dfl + extra, env={'transport': None, 'pib': 'pib-sqlite3:' + loc, 'tpm': 'tpm-file:' + loc})
 
 
 FACE_SCHEMES = ['unix', 'tcp', 'tcp4', 'tcp6', 'udp', 'udp4', 'udp6']
@@ -584,6 +697,7 @@ def cases(rng, tier):
     for i in range(3000 if tier == 'quick' else 60000):
         yield _parse_case(rng)
     yield from _targeted_conf()
+    yield from _targeted_home()
     yield from _targeted_face()
     n = 2500 if tier == 'quick' else 60000
     for i in range(n):
@@ -650,11 +764,15 @@ def _bracket_ok(uri):
 def run_impl(case):
     if case['op'] == 'conf':
         files = {p: _render_case(case, ls) for p, ls in case['files']}
-        with Virt(case['home'], case['exists'], files, case['env']) as v:
-            p = _platform()
-            plat = {'conf_paths': list(p.client_conf_paths()), 'default_transport': p.default_transport(),
-                    'pib_scheme': p.default_pib_scheme(), 'tpm_scheme': p.default_tpm_scheme(),
-                    'pib_paths': list(p.default_pib_paths()), 'tpm_paths': list(p.default_tpm_paths())}
+        with _virt(case, files) as v:
+            try:
+                p = _platform()
+                plat = {'conf_paths': list(p.client_conf_paths()), 'default_transport': p.default_transport(),
+                        'pib_scheme': p.default_pib_scheme(), 'tpm_scheme': p.default_tpm_scheme(),
+                        'pib_paths': list(p.default_pib_paths()), 'tpm_paths': list(p.default_tpm_paths()),
+                        'class': type(p).__name__}
+            except Exception as e:     # noqa  (a platform helper that cannot cope with this environment)
+                return {'op': 'conf', 'result': None, 'raised': _exc(e), 'platform': None}
             try:
                 res, raised = v.cc.read_client_conf(), None
                 res = {k: res.get(k) for k in ENVKEYS} | {'extra_keys': sorted(set(res) - set(ENVKEYS))}
@@ -727,6 +845,8 @@ def _in_grammar(s):
 
 def model_line(case, impl):
     if case['op'] == 'conf':
+        if case.get('platform', 'linux') != 'linux':
+            return None                                    # the generated table of the model is the running platform's
         texts = [_render_case(case, ls) for _, ls in case['files']]
         vals = [v for v in case['env'].values() if v is not None] + texts + list(case['exists'])
         # configuration values are literal text, % included (fixed in /repo: ConfigParser(interpolation=None))
@@ -738,7 +858,7 @@ def model_line(case, impl):
             fs.append(_hx(p) + '>' + ('|'.join(_hxa(l) for l in pl) if pl else '_'))
         ex = sorted(set(case['exists']) | {p for p, _ in case['files']})
         env = [('~' if case['env'][k] is None else _hxa(case['env'][k])) for k in ENVKEYS]
-        return ' '.join(['C20 conf', _hx(case['home']), ','.join(_hxa(e) for e in ex) if ex else '.',
+        return ' '.join(['C20 conf', _hx(_eff_home(case)), ','.join(_hxa(e) for e in ex) if ex else '.',
                          ';'.join(fs) if fs else '.'] + env)
     if case['op'] == 'parse':
         if not all(ord(c) < 128 for c in case['text']):
@@ -806,26 +926,33 @@ def _first_file_value(case, plat, key):
     return None, None, True
 
 
-def _spec_platform(home, present):
+def _spec_platform(home, present, platform='linux'):
     """the Linux defaults as documented for NDN client configuration (ndn-cxx `ndn-client.conf` manual / python-ndn docs):
     search order user file, /usr/local/etc, /opt/local/etc, /etc; SQLite PIB in ~/.ndn; file TPM in ~/.ndn/ndnsec-key-file;
-    NFD's Unix socket /run/nfd/nfd.sock, the pre-2022 location /run/nfd.sock only when that one alone exists"""
-    old_only = '/run/nfd/nfd.sock' not in present and '/run/nfd.sock' in present
+    NFD's Unix socket /run/nfd/nfd.sock, the pre-2022 location /run/nfd.sock only when that one alone exists.
+    macOS: the same search order and PIB, the OS keychain as TPM, NFD's socket under /var/run.
+    `home` is what '~' denotes: $HOME when set, else the home directory of the password database."""
+    run = '/var/run' if platform == 'darwin' else '/run'
+    old_only = run + '/nfd/nfd.sock' not in present and run + '/nfd.sock' in present
     return {'conf_paths': [home + '/.ndn/client.conf', '/usr/local/etc/ndn/client.conf', '/opt/local/etc/ndn/client.conf',
                            '/etc/ndn/client.conf'],
-            'default_transport': 'unix:///run/nfd.sock' if old_only else 'unix:///run/nfd/nfd.sock',
-            'pib_scheme': 'pib-sqlite3', 'tpm_scheme': 'tpm-file',
-            'pib_paths': [home + '/.ndn'], 'tpm_paths': [home + '/.ndn/ndnsec-key-file']}
+            'default_transport': 'unix://' + run + ('/nfd.sock' if old_only else '/nfd/nfd.sock'),
+            'pib_scheme': 'pib-sqlite3', 'tpm_scheme': 'tpm-osxkeychain' if platform == 'darwin' else 'tpm-file',
+            'pib_paths': [home + '/.ndn'], 'tpm_paths': [home + '/.ndn/ndnsec-key-file'],
+            'class': 'Darwin' if platform == 'darwin' else 'Linux'}
 
 
 def oracle(case, impl):
     if case['op'] == 'conf':
         plat = impl['platform']
+        if plat is None:
+            return f"the platform defaults could not be determined: {impl['raised']}"
         present = set(case['exists']) | {p for p, _ in case['files']}
         # the platform defaults are judged against the documented ones, not taken on trust from the code under test
         import sys
-        if sys.platform.startswith('linux'):
-            spec = _spec_platform(case['home'], present)
+        platform = case.get('platform', 'linux')
+        if platform in ('linux', 'darwin') and (platform != 'linux' or sys.platform.startswith('linux')):
+            spec = _spec_platform(_eff_home(case), present, platform)
             for k, v in spec.items():
                 if plat.get(k) != v:
                     return f'platform default {k} is {plat.get(k)!r}, documented {v!r}'
@@ -929,9 +1056,12 @@ def nontrivial(case, impl):
 
 def tags(case, impl):
     t = ['op:' + case['op'], 'raised:' + str(impl['raised'])]
-    if case['op'] == 'conf':
+    if case['op'] == 'conf' and impl['platform'] is None:
+        t.append('platform-helper-raised')
+    elif case['op'] == 'conf':
         plat = impl['platform']
         present = set(case['exists']) | {p for p, _ in case['files']}
+        t.append('platform:' + case.get('platform', 'linux') + ':home-' + case.get('home_env', 'set'))
         t.append('env:' + ''.join(k[0] if case['env'][k] is not None else '-' for k in ENVKEYS))
         t.append('files-existing:%d' % sum(1 for p in plat['conf_paths'] if p in present))
         if any(l[0] == 'raw' for _, ls in case['files'] for l in ls):
